@@ -134,6 +134,19 @@ def _impl_win(args):
     return hist.impl_compute(case, from_day=f, to_day=t, allow_neg=allow, full=True)
 
 
+def model_line(case, base_impl, from_day, to_day, allow, impl=None):
+    """the model's command for one (windowed) run of a case.  Constructor path: command 30, fed with the implementation's
+    own unfiltered fractions.  End-to-end ("ods") case: command 31 on the cells read back from the file (the arguments
+    come with the implementation's result `impl` of that very run; regenerated when it is not at hand)."""
+    if l2.is_ods(case):
+        args = impl.pop("line", None) if impl is not None else None
+        if args is None:
+            args = hist.ods_model_args(case, from_day, to_day, allow)
+        return hist.line(31, [0] + args)
+    fr = [(x["ev"], x["lot"], x["amt"]) for x in base_impl["ok"]["fractions"]] if "ok" in base_impl else []
+    return hist.line(30, encode_input(case, fr, from_day, to_day, allow))
+
+
 def run(tier):
     """windowed runs on top of the L2 base run.
     -> dict(jobs=[(case_index, from, to)], impl=[...], model=[...decoded...], base=l2 data)"""
@@ -146,22 +159,32 @@ def run(tier):
     rng = core.Rng(core.seed(), 4)
     from harness import fingerprint
     limit = (4000 if tier == "quick" else 30000) * (max(fingerprint.boost("l2"), fingerprint.boost("l4")) if tier == "quick" else 1)
-    jobs = []
+    jobs, n_plain = [], 0
     for idx, (c, i) in enumerate(zip(base["cases"], base["impl"])):
         if "ok" not in i:
             continue
-        if len(jobs) >= limit:
-            break
+        if l2.is_ods(c):            # the end-to-end stream is judged whole, beyond the limit
+            f, t = gen_window(rng, c)
+            jobs.append([idx, f, t])
+            continue
+        if n_plain >= limit:
+            continue
+        n_plain += 1
         f, t = gen_window(rng, c)
         jobs.append([idx, f, t])
     impl = core.pool_map(_impl_win, [(base["cases"][idx], f, t, True) for idx, f, t in jobs], init=core.impl_env_setup)
     lines = []
-    for idx, f, t in jobs:
-        c = base["cases"][idx]
-        fr = [(x["ev"], x["lot"], x["amt"]) for x in base["impl"][idx]["ok"]["fractions"]]
-        lines.append(hist.line(30, encode_input(c, fr, f, t, True)))
+    for (idx, f, t), i in zip(jobs, impl):
+        lines.append(model_line(base["cases"][idx], base["impl"][idx], f, t, True, i))
+        i.pop("parsed", None)
     raw = core.run_model(lines)
     model = [decode_computed(r, base["cases"][idx]) for r, (idx, f, t) in zip(raw, jobs)]
+    # the unwindowed run of every end-to-end case has been made by the L2 layer already, on both sides: judged as a job too
+    for k, d in base.get("odsfull", {}).items():
+        if "ok" in base["impl"][int(k)]:
+            jobs.append([int(k), None, None])
+            impl.append({"ok": base["impl"][int(k)]["ok"]})
+            model.append(d)
     res = {"jobs": jobs, "impl": impl, "model": model}
     l2.cache_put(name, res)
     res["base"] = base
